@@ -22,6 +22,9 @@
 (*               registers a, b                                            *)
 (*       "dw"    4-byte data word holding f(t, n)                          *)
 (*       "align" align n      "data" n literal bytes      "gap" n bytes    *)
+(*       "const" constant definition t = n (emits nothing)                  *)
+(*       "brk"   branch m rs1=a rs2=b / "jalk" jal rd=a to the ABSOLUTE     *)
+(*               address given by constant t (= n): `beq x8, x0, K`         *)
 (*       "pins"  literal pseudo-instruction m (nop mv not neg seqz snez sltz *)
 (*               sgtz jr jalr ret) with registers a, b                     *)
 (*   f = "bare" (label value) | "pos" (%position(t, n)) | "off" (%offset)  *)
@@ -128,7 +131,7 @@ RleLen(r) == IF r = <<>> THEN 0 ELSE r[1][2] + RleLen(Tail(r))
 RECURSIVE RleBytes(_)
 RleBytes(r) == IF r = <<>> THEN <<>> ELSE [j \in 1..r[1][2] |-> r[1][1]] \o RleBytes(Tail(r))
 
-InstrKinds == {"ins", "pins", "br", "jal", "pbr", "pj", "li", "lil", "imml"}
+InstrKinds == {"ins", "pins", "br", "jal", "pbr", "pj", "li", "lil", "imml", "brk", "jalk"}
 
 ItemFails(prog, obs, off, i) ==
   LET it == prog[i]
@@ -137,9 +140,17 @@ ItemFails(prog, obs, off, i) ==
       ds == Insts(obs.hw[i])
       legal == \A j \in 1..Len(ds) : ds[j].m # "illegal"
       one == Len(ds) = 1
-      tgt == LabelOff(prog, off, it.t)
+      tgt == IF it.k \in {"brk", "jalk", "const"} \/ it.t = "" THEN 0 ELSE LabelOff(prog, off, it.t)
   IN
-  CASE it.k = "lab" -> IF sz = 0 THEN {} ELSE {"LabelEmitsNothing"}
+  CASE it.k \in {"lab", "const"} -> IF sz = 0 THEN {} ELSE {"LabelEmitsNothing"}
+    [] it.k = "brk" ->
+         (IF legal THEN {} ELSE {"EveryInstructionLegal"}) \cup
+         (IF one /\ legal /\ ds[1].m = it.m /\ ds[1].ops[1] = it.a /\ ds[1].ops[2] = it.b THEN {} ELSE {"MeaningPreserved"}) \cup
+         (IF one /\ legal /\ ds[1].m \in BType /\ pos + ds[1].ops[3] = it.n THEN {} ELSE {"AbsoluteTargetExact"})
+    [] it.k = "jalk" ->
+         (IF legal THEN {} ELSE {"EveryInstructionLegal"}) \cup
+         (IF one /\ legal /\ ds[1].m = "jal" /\ ds[1].ops[1] = it.a THEN {} ELSE {"MeaningPreserved"}) \cup
+         (IF one /\ legal /\ ds[1].m = "jal" /\ pos + ds[1].ops[2] = it.n THEN {} ELSE {"AbsoluteTargetExact"})
     [] it.k = "ins" ->
          (IF legal THEN {} ELSE {"EveryInstructionLegal"}) \cup
          (IF one /\ legal /\ Same(ds[1], it.m, IF it.m \in IEType THEN <<>> ELSE IF it.m \in UType THEN <<it.a, it.b>> ELSE <<it.a, it.b, it.c>>)
